@@ -783,6 +783,7 @@ def parent_walk_loops(f):
                 if l is not None and r_.get("k") == "Binary" and r_.get("op") == "+" and hirq.local_of(r_["l"]) == l:
                     counters.add(l)
         capped = False
+        cap_ifs = []
         for n in walk(lp):
             if n.get("k") != "If":
                 continue
@@ -794,6 +795,26 @@ def parent_walk_loops(f):
                 exits = any(x.get("k") == "Ret" or (x.get("k") == "Match" and x.get("src") == "TryDesugar") or x.get("k") == "Break" for x in walk(n.get("then") or {}))
                 if has_counter and has_len and exits:
                     capped = True
+                    cap_ifs.append(n)
+        if capped:
+            # ... on EVERY iteration that goes round again: a cap that only runs under some condition (`if under_group.is_none()`)
+            # leaves the other iterations unbounded.  One-bit abstract run of an iteration: "the cap test was evaluated".
+            from .rules_round3 import _d10_eval
+            ids = set(id(x) for x in cap_ifs)
+            def act(nd):
+                return id(nd) in ids
+            body = lp.get("body")
+            target = body
+            for m in walk(body):
+                if m.get("k") == "If" and any(x.get("k") in ("Let", "LetExpr") for x in walk(m.get("cond") or {})):
+                    target = m.get("then")
+                    break
+            if isinstance(target, dict) and "k" not in target and "stmts" in target:
+                target = {"k": "Block", "b": target}
+            drops = []
+            fall = _d10_eval(target, {False}, drops, 0, act)
+            if drops or False in fall:
+                capped = False
         out.append((lp, capped))
     return out
 
